@@ -24,6 +24,10 @@ class ControlRequestHandler(USBRequestHandler):
                                 of acknowledged.
             """
 
+        # Handshakes are broadcast to every endpoint; so an ACK only completes -this- request if it
+        # answers our own status-stage ZLP. Track whether our ZLP is the most recent thing on the bus.
+        status_sent = Signal()
+
         # Provide an response to the STATUS stage.
         with m.If(self.interface.status_requested):
 
@@ -32,16 +36,22 @@ class ControlRequestHandler(USBRequestHandler):
                 m.d.comb += self.interface.handshakes_out.stall.eq(1)
             with m.Else():
                 m.d.comb += self.send_zlp()
+                m.d.usb  += status_sent.eq(1)
 
-        # Accept the relevant value after the packet is ACK'd...
-        with m.If(self.interface.handshakes_in.ack):
+        # Accept the relevant value after our status stage is ACK'd...
+        with m.If(self.interface.handshakes_in.ack & status_sent):
             m.d.comb += [
                 write_strobe      .eq(1),
                 new_value_signal  .eq(self.interface.setup.value)
             ]
 
             # ... and then return to idle.
+            m.d.usb += status_sent.eq(0)
             m.next = 'IDLE'
+
+        # Any new token starts a different transaction; a later ACK does not belong to our status stage.
+        with m.If(self.interface.tokenizer.new_token):
+            m.d.usb += status_sent.eq(0)
 
 
     def handle_simple_data_request(self, m, transmitter, data, length=1):
